@@ -39,3 +39,19 @@ _m("C05", "every explicit integrator class (explicit, forwardeuler, rk2, rk2_heu
           "recorded stage input and the result must be reproduced through (A, b); (c) dt-halving order on non-autonomous nonlinear "
           "ODEs against scipy DOP853.  non-trivial: every case; distinct = hash(integrator, rhs coefficients, dt).",
    exhaustive_groups=["tableau (all explicit integrator classes)"])
+
+_m("C06", "linear convection (either sign) x every linear reconstruction x all mesh kinds (3-24 cells) x periodic/Dirichlet x "
+          "CFL in {0.01,0.1,1,10,100,random} x random/smooth/step/spike/zero-mean fields: the operator (A, b) is assembled by the "
+          "monitor from the real rhs on unit impulses and one real step of implicit/backwardeuler/trapezoidal/cranknicolson/gear "
+          "(scalar and local dt) is compared with numpy.linalg.solve of the theta / BDF2 system; norm growth on normal operators; "
+          "dt-halving order against scipy expm; calc_jacobian of Euler/nozzle/Burgers/shallow-water smooth states vs Richardson "
+          "central differences of the real rhs and column conservation.  non-trivial: every case; distinct = hash(config+data).")
+
+_m("C07", "each case is one real solve()/restart() call (all 15 integrator classes x {convection, burgers, euler1d, shallowwater} x "
+          "periodic/wall/open x CFL 0.05-2 x dtlocal on/off x start time != 0) with a save-time list placed relative to a dry-run "
+          "trajectory: empty, [t_start], containing t_start, several inside one step, 1000-ulp apart, beyond the stop, all before "
+          "the start, random; stop = tottime / maxit / both / tsave only.  Probes on _solve, every step(), _parse_monitors and "
+          "calc_timestep record the call; the offline checker decides step advance, returned times, origin of every snapshot "
+          "(forward side step <= CFL step from the current trajectory state, re-executed on a fresh integrator), finiteness, "
+          "nit/totnit, first-stop, iteration tags and that the caller's field is bit-identical.  non-trivial: every logged solve "
+          "with >= 1 main step or >= 1 request; distinct = hash(config, tsave, stop).")
